@@ -65,6 +65,9 @@ class Ob:
             d["status"] = "discharged"
         if it is not None and it.unknown_stmts:
             d["unknown_mir_statements"] = sorted(set(it.unknown_stmts))[:5]
+        if it is not None and getattr(it, "cross_checked", 0):
+            d["cvc5_cross_checked_queries"] = it.cross_checked
+            d["cvc5_no_answer"] = getattr(it, "cross_unknown", 0)
         return d
 
 
@@ -125,6 +128,7 @@ def kernel_next(fns, lb):
             "writes never lower the shard (guarantee)", "<= %d CAS retries (each preceded by an arbitrary monotone environment step); weak CAS may fail spuriously" % lb, f)
     am = AtomicModel(64, lambda o, n: z3.UGE(n, o))
     it = Interp(f, loop_bound=lb, atomic=am)
+    it.cross_check = True
     wall = z3.BitVec("wall", 64)
 
     def init(it_, st):
@@ -158,6 +162,7 @@ def kernel_observe(fns, lb):
             "<= %d CAS retries" % lb, f)
     am = AtomicModel(64, lambda o, n: z3.UGE(n, o))
     it = Interp(f, loop_bound=lb, atomic=am)
+    it.cross_check = True
     ts = z3.BitVec("ts", 64)
 
     def init(it_, st):
@@ -273,6 +278,7 @@ def kernel_reserve_memory(fns, lb):
     def rely(o, n):
         return z3.If(has_limit, z3.ULE(n, z3.If(z3.UGE(o, limit), o, limit)), z3.BoolVal(True))
     it = Interp(f, ctx=ctx, loop_bound=lb, atomic=AtomicModel(64, rely))
+    it.cross_check = True
 
     def init(it_, st):
         st["env"]["_1"] = self_
@@ -712,6 +718,7 @@ def kernel_acquire_extent(fns, lb):
     def rely(o, n):
         return z3.Implies((o & R) != 0, (n & R) != 0)
     it = Interp(f, loop_bound=lb, atomic=AtomicModel(32, rely))
+    it.cross_check = True
     for p in it.run():
         ob.paths += 1
         if p.status == "truncated":
@@ -808,7 +815,7 @@ def site_prepare_deferred(fns):
 
 # ============================================================================ C11
 def c11(fns, tier, env):
-    out = [kernel_ttl_expiry(fns), site_retire_expired(fns), site_update_ttl(fns), scan_iteration(fns)]
+    out = [kernel_ttl_expiry(fns), site_retire_expired(fns), site_update_ttl(fns), site_sweeper(fns), scan_iteration(fns)]
     return finalize(out, env)
 
 
@@ -1811,6 +1818,59 @@ def scan_iteration(fns):
     return ob.result(it, witness=[("usize>::fetch_sub", "c13_recovery_accounting"), ("u64>::fetch_sub", "c10_recovery_disk_usage"),
                                   ("discarded only", "c11_recovery_expired_winner"), ("indexed only", "c11_recovery_expired_winner"),
                                   ("whole extent", "c03_scan_skips_whole_extents"), ("", "c03_scan_skips_whole_extents")])
+
+
+# ============================================================================ TTL sweeper
+def site_sweeper(fns):
+    f = mir.find(fns, "::sample_and_expire_batch", None)
+    ob = Ob("site_ttl_sweeper_guarded_removal", "background sweeper, one arbitrary candidate: an entry is removed only under its guard, only when it IS the sampled "
+            "generation (pointer identity) and its expiry – re-read under the guard – is non-zero and before `now`; counters are adjusted only when an entry was removed; "
+            "retired_at/refcount of the generation are written only on that path", "one arbitrary iteration of the candidate loop", f)
+    hdr = None
+    for bb, st in f.blocks.items():
+        if "as Iterator>::next" in st[-1] and "IntoIter<(Vec<u8>, Arc<" in st[-1]:
+            hdr = bb
+    if hdr is None:
+        raise mir.MirError("candidate loop not found")
+    it = Interp(f, loop_bound=1, pure=PURE, max_paths=6000)
+    now = z3.BitVec("now", 64)
+    nowl = f.debug.get("now")
+
+    def init(it_, st):
+        if nowl:
+            st["env"][nowl] = now
+    reached = 0
+    for p in it.run(init, start=hdr, stop=(hdr,)):
+        ob.paths += 1
+        if p.status not in ("backedge", "return"):
+            continue
+        rem = events(p, "OccupiedEntry::remove")
+        stores = events(p, "Atomic::store")
+        ne = events(p, "::note_expired_record")
+        if not rem:
+            ob.must_hold(not stores, "nothing is written to the generation when no entry is removed")
+            ob.must_hold(not ne, "no counter is adjusted when no entry is removed")
+            continue
+        reached += 1
+        cur = guarded_entry_value(it, p)
+        ob.must_hold(cur is not None, "removal under the entry guard")
+        if cur is None:
+            continue
+        nx = [e for e in p.events if e.kind == "call" and e.callee.endswith("Iterator>::next")]
+        loads = [e for e in events(p, "Atomic::load") if z3.is_bv(e.ret) and e.ret.size() == 64 and idx_of(p, e) < idx_of(p, rem[0])]
+        ob.must_hold(len(loads) >= 2, "expiry is read again under the guard")
+        if loads:
+            exp = loads[-1].ret
+            ob.need(it, rem[0].pc, z3.And(exp != 0, z3.ULT(exp, now)), "removed only with 0 < expiry(now re-read) < now")
+        pe = events(p, "Arc::ptr_eq")
+        # identity: ptr_eq is modelled as term equality, so the guard value equals the sampled record on this path
+        if nx:
+            cand = it.ctx.uf("proj_Some_0", [U], U)(it.as_u(nx[0].ret))
+            rec = it.ctx.uf("proj__1", [U], U)(cand)
+            ob.need(it, rem[0].pc, it.as_u(cur) == rec, "the removed entry is the sampled generation")
+        ob.must_hold(len(ne) == 1 and idx_of(p, ne[0]) > idx_of(p, rem[0]), "counters adjusted once, after the removal")
+    ob.must_hold(reached >= 1, "the removal site was reached")
+    return ob.result(it)
 
 
 # ============================================================================ common tail
